@@ -7,7 +7,7 @@ export CARGO_TARGET_DIR=$WT/target CARGO_NET_OFFLINE=true
 cd $WT && git checkout -q -- . && git clean -fdq crates
 TESTDIR=$WT/crates/$CRATE/tests
 mkdir -p $TESTDIR; cp $DEMO $TESTDIR/$TN.rs
-FEAT=""
+FEAT="${FEAT_OVERRIDE:-}"
 if grep -q "unstable-fs\|turmoil::fs\|turmoil_fs" $DEMO; then FEAT="--all-features"; fi
 cargo test -p $CRATE --test $TN --offline $FEAT >/tmp/confirm.$$.a 2>&1; A=$?
 git apply $PATCH || { echo "PATCH-FAILED"; exit 3; }
